@@ -131,6 +131,16 @@ CHECKS = {
              "types and 4 chrono durations; 8 probes using ZERO where a QuantityPoint is required must be rejected (4 quantity twins compile).",
         note="The specification part is small (sign/NaN classification); the strength is the exhaustive sweep.  ZERO - q at the most negative 32/64-bit value is raw UB and excluded.",
         technique="contract sweep against 'stored value op 0' with records validated by TLC + failing probes with twins", ref="6/C19"),
+    "C09": dict(
+        text="PointBig.tla states the affine semantics with exact BigInt rationals: Position = value x scale + origin.  Scale and origin of "
+             "Kelvins/Celsius/Fahrenheit, prefixed forms and seeded generated point units are read out of the compiled types; TLC emits for "
+             "every ordered pair the contract x -> (x*A + B)/C and an integer position grid; a comparator sweeps dense windows, origins and "
+             "random values through coerce_in/coerce_as/in/as<Rep>, the six comparisons, point - point, point +- quantity, quantity + point; every "
+             "disagreement and a sample (incl. all equal-position pairs) is re-derived by TLC from the raw inputs and the descriptors; 18 "
+             "operations without affine meaning must be rejected (8 twins compile).",
+        note="Claims exactness only where the exact image is an integer in range and the reduced affine numerators fit the reps (a conservative "
+             "reading of 'intermediate displacement representable').  Layer A for points is C10's fold/gcd model.",
+        technique="TLC-emitted affine contracts swept against the real QuantityPoint operations, adjudicated by TLC (BigInt rationals) + failing probes", ref="6/C09"),
 }
 
 
